@@ -69,8 +69,23 @@ def check_classes(lang, factory, res, count=True):
             if float(got[d]) != v or float(getattr(obj, d)) != v:
                 return ('classes.assets:defense-default', '%s.%s defaults to %r, expected %r' % (t, d, got[d], v))
     dup = False
+    collide = {i for g in lang.same_signature_groups() for i in g}
+    if collide and count:
+        res.count('langs-with-same-name-same-ends-associations')
     for i, a in enumerate(lang.assocs):
         cls = lang.assoc_class_name(i)
+        if i in collide:
+            # both associations would have to be called <name>_<left>_<right>: the classes must still
+            # expose the two fields of each of them
+            sch = factory.json_schema['definitions']['LanguageAssociation']['definitions'].get(a['name'], {})
+            entry = sch.get('definitions', {}).get(cls, sch)
+            if sorted(entry.get('properties', {})) != sorted([a['leftField'], a['rightField']]):
+                return ('classes.associations:same-name-same-ends-collide',
+                        'associations %s share name and end types (%s); the generated classes expose only the fields %s, '
+                        'association with fields (%s, %s) cannot be instantiated' % (
+                            [(lang.assocs[j]['leftField'], lang.assocs[j]['rightField']) for j in sorted(collide) if lang.assocs[j]['name'] == a['name']],
+                            cls, sorted(entry.get('properties', {})), a['leftField'], a['rightField']))
+            continue
         if cls != a['name']:
             dup = True
         if count:
@@ -151,7 +166,10 @@ def attempts(rng, lang, factory, res, count=True):
     # --- association members
     if not lang.assocs or not conc:
         return None
+    collide = {i for g in lang.same_signature_groups() for i in g}
     for i, a in enumerate(lang.assocs):
+        if i in collide:
+            continue
         cls = lang.assoc_class_name(i)
         lf, rf = a['leftField'], a['rightField']
         lconc = [t for t in conc if lang.is_sub(t, a['leftAsset'])]
@@ -296,7 +314,7 @@ def run(rng, res, tier, shard, nshards):
         if first_round and shard == 0:
             spec, src = corelang_spec('core'), 'corelang'
         else:
-            spec, src = gen_language(rng, Cfg(max_assets=6, max_assocs=6, max_depth=1, dup_assoc_names=0.4,
+            spec, src = gen_language(rng, Cfg(max_assets=6, max_assocs=6, max_depth=1, dup_assoc_names=0.4, same_sig_dups=rng.choice([0.0, 0.0, 0.0, 0.5]),
                                               inherit_bias=rng.choice([0.5, 0.8]))), 'generated'
         first_round = False
         seed = rng.randrange(10 ** 9)
